@@ -268,6 +268,52 @@ void do_op(string op) {
       gs = 0; ga = 0; gm = 0;
     }
     break;
+  case "call":    // call <ob> <func> [arg] [arg]: generic call_other with string arguments
+    o = ob_of(a[1]);
+    if (!o) o = load_object(a[1]);
+    if (o) {
+      if (sizeof(a) == 3) call_other(o, a[2]);
+      else if (sizeof(a) == 4) call_other(o, a[2], a[3]);
+      else call_other(o, a[2], a[3], a[4]);
+    }
+    break;
+  case "fe":      // fe <id> <efun> <hexpath> [hexpath2]: file efun with a hostile path, inside catch
+    {
+      mixed r, e; string p1, p2;
+      p1 = master()->unhex(a[3]); p2 = sizeof(a) > 4 ? master()->unhex(a[4]) : 0;
+      rec("FE " + a[1] + " " + a[2]);
+      switch (a[2]) {
+      case "read_file": e = catch(r = read_file(p1)); break;
+      case "write_file": e = catch(r = write_file(p1, "data\n")); break;
+      case "rm": e = catch(r = rm(p1)); break;
+      case "rename": e = catch(r = rename(p1, p2)); break;
+      case "cp": e = catch(r = cp(p1, p2)); break;
+      case "link": e = catch(r = link(p1, p2)); break;
+      case "mkdir": e = catch(r = mkdir(p1)); break;
+      case "rmdir": e = catch(r = rmdir(p1)); break;
+      case "get_dir": e = catch(r = get_dir(p1)); break;
+      case "get_dir2": e = catch(r = get_dir(p1, -1)); break;
+      case "stat": e = catch(r = stat(p1)); break;
+      case "file_size": e = catch(r = file_size(p1)); break;
+      case "file_length": e = catch(r = file_length(p1)); break;
+      case "read_bytes": e = catch(r = read_bytes(p1, 0, 10)); break;
+      case "write_bytes": e = catch(r = write_bytes(p1, 0, "xy")); break;
+      case "read_buffer": e = catch(r = read_buffer(p1, 0, 10)); break;
+      case "write_buffer": e = catch(r = write_buffer(p1, 0, "xy")); break;
+      case "tail": e = catch(r = tail(p1)); break;
+      case "save_object": e = catch(r = save_object(p1)); break;
+      case "restore_object": e = catch(r = restore_object(p1)); break;
+      case "load_object": e = catch(r = load_object(p1)); break;
+      case "clone_object": e = catch(r = clone_object(p1)); break;
+      case "find_object": e = catch(r = find_object(p1)); break;
+      case "dumpallobj": e = catch(dumpallobj(p1)); break;
+      case "dump_prog": e = catch(dump_prog(this_object(), 0, p1)); break;
+      default: rec("BADFE " + a[2]);
+      }
+      rec("FEDONE " + a[1] + " " + (e ? "err" : (stringp(r) ? "str" : (arrayp(r) ? "arr" : (objectp(r) ? "ob" : "" + r)))));
+      if (objectp(r) && r != this_object()) destruct(r);
+    }
+    break;
   case "setcs":   // setcs <script>: the next vobj created runs this script inside create()
     master()->set_create_script(sub(implode(a[1..], " ")));
     break;
